@@ -1319,9 +1319,13 @@ class Sim18:
                 if __import__("os").environ.get("UNYTSIM_LIST_WITHIN_TOL"):
                     print("WITHIN-TOL", op["t"], op.get("p"), str(got.dtype), [classify(c) for c in copies.values()],
                           got.ravel().tolist()[:3], want.ravel().tolist()[:3], [str(c.units) for c in copies.values()], flush=True)
-                if t.cat in ("iconv", "iequiv") and not int_payload:
+                wide_int = tgt_before["dtype"] in ("int64", "uint64") and all(
+                    np.asarray(c).dtype.kind not in "iub" or np.asarray(c).dtype.itemsize == 8 for c in copies.values())
+                if t.cat in ("iconv", "iequiv") and (not int_payload or wide_int):
                     # float and complex payloads of the in-place conversions: "exactly the numbers of the
-                    # corresponding copying call" is taken literally (it holds to the bit on the pinned tree)
+                    # corresponding copying call" is taken literally (it holds to the bit on the pinned tree).
+                    # 64-bit integer payloads too: both routes compute their image in float64 (narrower integers
+                    # go through a same-width float in place and through float64 in the copying form: C17's subject)
                     bad = "numbers"
                 for x, y in zip(got.ravel().tolist(), want.ravel().tolist()):
                     if bad:
